@@ -84,8 +84,10 @@ prop("C08",
      outside="mnemonic spellings outside the catalogue; RV64 *w forms; text layout (symbolic text is out of reach)",
      assumptions=COMMON_ASSUME + ["rvref.rs is a faithful transcription of the RV32IM ISA manual semantics"])
 prop("C01",
-     outside="composition of the local steps inside AvailableValuePass::run (fix point over a heap graph); "
-             "the lints that consume the values",
+     outside="programs outside E4's enumerated families (longer bodies, other instructions, nested control flow, recursion); "
+             "sub-word aliasing (word-granular memory model); stores through registers other than sp; callees that break the "
+             "convention; AvailableValuePass::run as code (it is only seen through its output on E4's programs); the lints that "
+             "consume the values",
      assumptions=COMMON_ASSUME + ["rvref.rs is a faithful transcription of the RV32IM ISA manual semantics",
                                   "gamma (DESIGN.md section 4) is the intended meaning of each AvailableValue variant"])
 prop("C06",
@@ -253,7 +255,8 @@ OPC = ["riscv_analysis::cfg::MathOp::operate -> RV32IM reference for the 10 oper
 for c in _rules:
     h(c["name"], "gen_rules", ["C01", "C06"] if c["name"] == "rule_offsets_np" else ["C01"], tier=c["tier"], symbolic=c["symbolic"], desc=c["desc"],
       bounds="concrete register roles (catalogue), <= 3 facts per map, unwind 9",
-      stubs=UUID, mem=12, cap=900)
+      stubs=UUID, mem=26 if c["name"].startswith(("rule_from_", "rule_expand_")) else 12,
+      cap=1200 if c["name"].startswith("rule_from_") else 900)
 
 # ---------------------------------------------------------------------------
 # C06: abs() in message formatting; C18.a ordering; C19 dump values
